@@ -907,3 +907,5 @@ fire('C18', 'buffer-put-does-not-republish', 'C18.R7', 'Buffer.put',
      lambda p: M.delete_stmt(p, E_BUF, 'Buffer.put', M.stmt_calling('self._buffer_stats_collector')))
 fire('C18', 'fleet-get-does-not-republish', 'C18.R7', 'Fleet.get',
      lambda p: M.delete_stmt(p, E_FLT, 'Fleet.get', M.stmt_calling('self._fleet_stats_collector')))
+fire('C10', 'machine-cancel-result-check-inverted', 'C10.R2', 'cancel-loop',
+     lambda p: M.replace_node(p, N_MAC, 'Machine.behaviour', lambda n: isinstance(n, ast.UnaryOp) and ast.unparse(n) == 'not event_cancelled', 'event_cancelled'))
